@@ -120,6 +120,17 @@ func c09(r *core.Run) {
 							return true
 						}
 					}
+					// ... or the payout is made by a helper called here (releaseEscrow(bid, to))
+					for _, e := range p.Effects(fn) {
+						if e.Direct || e.Instr == at {
+							continue
+						}
+						for _, bo := range e.Bank {
+							if bo.Method == "SendCoinsFromModuleToAccount" && onlyStoreField(rnsBids, ".Price")(p.ResolveToEntry(p.ProvAt(bo.Args[2], "", bo.Instr), h.Fn)) && precedesAlways(fn, e.Instr, at) {
+								return true
+							}
+						}
+					}
 					if fn == h.Fn || depth > 3 {
 						return false
 					}
@@ -382,21 +393,41 @@ func c09(r *core.Run) {
 			continue
 		}
 		bo := out[0]
-		ap := p.ProvAt(bo.Args[2], "", bo.Instr)
+		ap := p.ResolveToEntry(p.ProvAt(bo.Args[2], "", bo.Instr), h.Fn)
 		r.Check(onlyStoreField(rnsBids, ".Price")(ap), "C09/R4", key+":amount-is-recorded-price", p.InstrPos(bo.Instr), "amount ⊵ loaded Bids.Price only", "payout is not exactly the recorded bid: "+ap.String())
 		r.Check(p.OnlyMsgField(p.ProvAt(bo.Args[1], "", bo.Instr), h, "Creator"), "C09/R4", key+":recipient-is-signer", p.InstrPos(bo.Instr), "recipient ⊵ signer only", "escrow is paid to someone other than the signer (bidder on cancel, verified owner on accept)")
-		// delete follows
+		// delete follows: in the function that pays out, or — when the payout sits in a helper — in the function of the
+		// handler's reach that calls that helper and deletes the bid
 		var del ssa.CallInstruction
+		payFn, payInstr := bo.Fn, ssa.Instruction(bo.Instr)
 		for _, e := range p.Effects(bo.Fn) {
 			if c, ok := e.Instr.(ssa.CallInstruction); ok && effHas(e, "Delete", rnsBids) {
 				del = c
 			}
 		}
 		if del == nil {
+			for _, f := range p.Summary(h.Fn).Funcs {
+				var pe, de *core.Effect
+				for _, e := range p.Effects(f) {
+					for _, b := range e.Bank {
+						if b == bo {
+							pe = e
+						}
+					}
+					if _, ok := e.Instr.(ssa.CallInstruction); ok && effHas(e, "Delete", rnsBids) {
+						de = e
+					}
+				}
+				if pe != nil && de != nil && pe != de {
+					payFn, payInstr, del = f, pe.Instr, de.Instr.(ssa.CallInstruction)
+				}
+			}
+		}
+		if del == nil {
 			r.Violation("C09/R4", key+":bid-consumed", p.InstrPos(bo.Instr), "the bid is paid out but never deleted: it can be cancelled/accepted again")
 			continue
 		}
-		r.Check(p.BypassExists(bo.Fn, bo.Instr, del, false) == nil, "C09/R4", key+":bid-consumed", p.InstrPos(del), "every committing path after the payout deletes the bid", "a committing path pays the escrow out without deleting the bid")
+		r.Check(p.BypassExists(payFn, payInstr, del, false) == nil, "C09/R4", key+":bid-consumed", p.InstrPos(del), "every committing path after the payout deletes the bid", "a committing path pays the escrow out without deleting the bid")
 		// key equality with the getter
 		var getter *ssa.Call
 		for _, a := range ap.DataAtoms() {
@@ -405,10 +436,17 @@ func c09(r *core.Run) {
 			}
 		}
 		if getter != nil {
-			same := sameArgs(p, getter, del)
-			if !same {
-				gt, dt := keyTermsThrough(p, getter, "Get", rnsBids), keyTermsThrough(p, del, "Delete", rnsBids)
-				same = len(gt) > 0 && strings.Join(gt, "|") == strings.Join(dt, "|") && !strings.Contains(strings.Join(gt, "|"), "?")
+			// the keys as the accessors build them (an accessor that rewrites its argument — lower-cases it, trims it —
+			// reads or deletes another slot than the one its caller names): equal terms through the accessor bodies;
+			// equal arguments only decide when those terms are not available
+			keyTermsKeepRewrite = true
+			gt, dt := keyTermsThrough(p, getter, "Get", rnsBids), keyTermsThrough(p, del, "Delete", rnsBids)
+			keyTermsKeepRewrite = false
+			same := false
+			if len(gt) > 0 && len(dt) > 0 && !strings.Contains(strings.Join(gt, "|")+strings.Join(dt, "|"), "?") {
+				same = strings.Join(gt, "|") == strings.Join(dt, "|")
+			} else {
+				same = sameArgs(p, getter, del)
 			}
 			r.Check(same, "C09/R4", key+":delete-key", p.InstrPos(del), "deleted key = loaded key", "the deleted bid is not the one that was paid out")
 		}
